@@ -285,6 +285,37 @@ func runC11(r *run) {
 		if len(seq) == 3 && r.evals%50 == 0 {
 			r.sample(map[string]any{"sequence": toks, "final_format": fmtNames[spec]})
 		}
+		// style 4: children asked for with the empty name (each is a logger of its own with a generated name): the
+		// first gets the first call of the sequence as its option, the second the rest
+		if len(seq) >= 2 {
+			reset()
+			optOf := func(m modeLetter) any {
+				if m.json {
+					return slog.WithJSONMode(m.bits...)
+				}
+				return slog.WithColorMode(m.bits...)
+			}
+			a := loggers[1].l.New("", optOf(seq[0]))
+			mk(a, specFmt(loggers[1].spec, seq[0]))
+			r.emit("C11 child 1 "+seq[0].tok, fmt.Sprint(len(loggers)-1))
+			rest := []any{""}
+			spec2 := loggers[1].spec
+			var toks2 []string
+			for _, m := range seq[1:] {
+				rest = append(rest, optOf(m))
+				spec2 = specFmt(spec2, m)
+				toks2 = append(toks2, m.tok)
+			}
+			b := loggers[1].l.New(rest...)
+			if b == a {
+				r.violate(violation{What: "New with an empty name handed out a logger that exists already: its options were ignored and the two callers share one logger",
+					Input: map[string]any{"style": "new-empty-name", "sequence": toks}})
+			}
+			mk(b, spec2)
+			r.emit("C11 child 1 "+strings.Join(toks2, " "), fmt.Sprint(len(loggers)-1))
+			probeAll("new-empty-name", seq)
+			r.seen(key("newempty"))
+		}
 	}
 	r.extra["exhaustive"] = true
 	r.extra["max_sequence_length"] = maxLen
